@@ -48,4 +48,5 @@
 (declare-fun node_childat (Iface Int) Iface)
 (declare-fun node_grouping (Iface String) Iface)   ; LookupGrouping(name): the grouping visible from the node under that name
 (declare-fun node_hasgrouping (Iface String) Bool)
+(declare-fun mach_expr (Int) String)                 ; the expression text an xpath.Machine was compiled from
 (declare-fun node_argdate (Iface) String)       ; ArgDate()
